@@ -323,4 +323,33 @@ def check_C14(run):
                 "vector are recorded", evaluations=obs, distinct_nontrivial=dist, exhaustive=False)
 
 
-CHECKS = {"C07": check_C07, "C08": check_C08, "C09": check_C09, "C10": check_C10, "C11": check_C11, "C14": check_C14, "C06": check_C06, "C13": check_C13, "C20": check_C20, "C04": check_C04, "C05": check_C05, "C03": check_C03, "C01": check_C01, "C02": check_C02}
+# ---------------------------------------------------------------------------
+# C17 / C18: report fields, display names (Report.tla, Trace_Report)
+# ---------------------------------------------------------------------------
+def check_C17(run):
+    gen.ensure(run, ["tables"])
+    s, verdicts = record_and_validate(run, ["report", "-n", "10000" if run.quick else "200000"], "Trace_Report", "report")
+    judge(run, verdicts, describe=lambda ev: "%s report in %s of %s" % (ev.get("lvl"), ev.get("lang"), ev.get("s")))
+    run.samples = [{"lvl": x["lvl"], "lang": x["lang"], "s": x["s"], "rep_fields": len(x["rep"])} for x in s.get("samples", [])[:5] if isinstance(x, dict)]
+    run.assumptions += ["expected titles / value names are what the names package returns for the like-named metric and the object's own field "
+                        "value (the table itself is C18's subject); vectors are drawn so that neighbouring metrics differ where their code sets allow"]
+    return dict(level=MC, rule="reports of all 5,184 base vectors (en, ja and one further language each) and of seeded temporal / environmental "
+                "vectors in {en, ja, und, fr, de, zh}; every exported field incl. the embedded reports and the shadowed unqualified names is "
+                "compared by TLC with Report!ExpectedReport; one event per report",
+                evaluations=s["observations"], distinct_nontrivial=s["distinct"], exhaustive=False)
+
+
+def check_C18(run):
+    gen.ensure(run, ["tables"])
+    s, verdicts = record_and_validate(run, ["names"], "Trace_Report", "names")
+    judge(run, verdicts, describe=lambda ev: "%s in %s" % (ev.get("m"), ev.get("lang")))
+    run.cov.update(s["extra"])
+    run.samples = [{"lang": x["lang"], "m": x["m"], "title": x["title"], "vals": x["vals"]} for x in s.get("samples", [])[:5] if isinstance(x, dict)]
+    run.assumptions += ["regional variants of English / Japanese tags are not probed (the property leaves them unspecified)"]
+    return dict(level=MC, rule="all 23 title functions, 23 value-name functions (enumeration integers -2..8) and 6 group-title functions x 10 "
+                "language tags (en, ja, und, fr, de, zh, ko, es, ru, ar); one aggregated event per (language, metric) judged by TLC against the "
+                "relational specification (non-empty, injective per metric and language, Modified = base names, common Unknown, English fallback)",
+                evaluations=s["extra"]["function_calls"], distinct_nontrivial=s["distinct"], exhaustive=True)
+
+
+CHECKS = {"C17": check_C17, "C18": check_C18, "C07": check_C07, "C08": check_C08, "C09": check_C09, "C10": check_C10, "C11": check_C11, "C14": check_C14, "C06": check_C06, "C13": check_C13, "C20": check_C20, "C04": check_C04, "C05": check_C05, "C03": check_C03, "C01": check_C01, "C02": check_C02}
